@@ -8,6 +8,7 @@ CONSTANTS
   Forge64 = {"resign_stranger"}
   Forge22 = {"resign_stranger", "strip_certchain"}
   Forge32 = {"resign_stranger"}
+  Served = {"DI", "TO0", "TO1", "TO2"}
   MaxReq = 4
   WithMutants = TRUE
 CONSTRAINT Bound
